@@ -21,6 +21,7 @@ import (
 
 	"github.com/libp2p/go-libp2p/core/network"
 	"github.com/libp2p/go-libp2p/core/peerstore"
+	"github.com/libp2p/go-libp2p/core/transport"
 	"github.com/libp2p/go-libp2p/x/verif/vrep"
 	vs "github.com/libp2p/go-libp2p/x/verif/vsched"
 	ma "github.com/multiformats/go-multiaddr"
@@ -90,6 +91,12 @@ type c12Scn struct {
 	// remote goes away); in the window before the swarm has noticed, the connection is "closing": still in the
 	// connection table, already closed. The thread that closed it asks for the peer's connectedness at once.
 	DirectDies bool
+	// StaleDirect: part of the HISTORY, next to the limited connection: an old direct connection to the peer that is already
+	// closed at the transport level (the remote went away) but still registered in the swarm - the swarm's accept loop
+	// for it has not run yet, so its removal is pending ("closing" in the property's quantifier). The removal is an
+	// environment event of its own ("swarm-notices", late by default): the window in which the connection table holds a
+	// dead direct connection is held open deterministically while the calls and the other events race in it.
+	StaleDirect   bool
 	LimitedCloses bool
 	Limited2      bool  // a second limited connection is admitted at some point
 	MustSucceed   []int // baseline (non-vacuity): these ops return a connection in every complete execution
@@ -109,6 +116,37 @@ type c12OpRun struct {
 	cancelIdle, endIdle time.Duration
 }
 
+// c12LingerConn is a transport connection whose death the swarm's accept loop learns of only when the harness lets it:
+// Close / IsClosed behave as for every fxConn (the connection IS closed for everybody who asks), AcceptStream reports the
+// error only once `noticed` is closed. Under the controlled scheduler that is nothing but the accept-loop goroutine not
+// having been scheduled yet, made an explicit event so that the default schedule holds the window open.
+type c12LingerConn struct {
+	*fxConn
+	noticed chan struct{}
+}
+
+func (c *c12LingerConn) AcceptStream() (network.MuxedStream, error) {
+	st, err := c.fxConn.AcceptStream()
+	if err != nil {
+		fxSelect(fxRecvCase(c.noticed))
+	}
+	return st, err
+}
+
+var _ transport.CapableConn = (*c12LingerConn)(nil)
+var _ network.ConnStat = (*c12LingerConn)(nil)
+
+// c12Fx returns the fake transport connection underneath a swarm connection (nil if it is none of ours).
+func c12Fx(tc transport.CapableConn) *fxConn {
+	switch c := tc.(type) {
+	case *fxConn:
+		return c
+	case *c12LingerConn:
+		return c.fxConn
+	}
+	return nil
+}
+
 func c12Body(sc c12Scn) func(x *vs.Exec) {
 	return func(x *vs.Exec) {
 		s := x.S
@@ -121,10 +159,23 @@ func c12Body(sc c12Scn) func(x *vs.Exec) {
 			env.PS.AddAddr(P.ID, ma.StringCast(a), peerstore.PermanentAddrTTL)
 		}
 		var limited, direct *fxConn
+		var stale *c12LingerConn
 		// initial connections are admitted under the scheduler, before the race starts
 		s.Go("setup", func() {
 			if sc.HaveLimited {
 				limited, _, _ = env.Inbound(env.Relay, P, "/ip4/5.6.7.8/tcp/4007/p2p/"+fxID("relay").ID.String()+"/p2p-circuit")
+			}
+			if sc.StaleDirect {
+				// an earlier direct connection: admitted, then closed underneath the swarm; its removal stays pending
+				stale = &c12LingerConn{fxConn: fxNewConn("tcp-in#stale", env.TCP, env.Local, P, ma.StringCast("/ip4/1.2.3.4/tcp/5000"), false), noticed: make(chan struct{})}
+				if _, err := env.Swarm.addConn(stale, network.DirInbound); err != nil {
+					x.Fail("baseline-dial-failed", "the old direct connection was not admitted: %v", err)
+					return
+				}
+				stale.Close()
+				if got := env.Swarm.Connectedness(P.ID); got == network.Connected && !sc.HaveDirect && !s.Free {
+					x.Fail("connected-reported-with-only-a-closed-direct-connection", "the only direct connection to the peer has been closed (the swarm has not removed it yet); Connectedness() = %v although the peer is reachable over limited connections at most", got)
+				}
 			}
 			if sc.HaveDirect {
 				direct, _, _ = env.Inbound(env.TCP, P, "/ip4/1.2.3.4/tcp/5001")
@@ -244,6 +295,12 @@ func c12Body(sc c12Scn) func(x *vs.Exec) {
 				}
 			})
 		}
+		if stale != nil {
+			s.GoPrio("swarm-notices", 3, func() {
+				vs.Yield()
+				vs.Close(stale.noticed) // the accept loop of the old direct connection gets to run: the swarm removes it
+			})
+		}
 		ok := s.Run()
 		if !ok && s.Deadlock != "" {
 			x.Fail("call-never-returns", "threads blocked forever: %s", s.Deadlock)
@@ -292,7 +349,7 @@ func c12Oracle(x *vs.Exec, sc c12Scn, env *fxEnv, runs []*c12OpRun) {
 			}
 			sc2 := r.conn.(*Conn)
 			isLimited := r.conn.Stat().Limited
-			if fc, ok := sc2.conn.(*fxConn); ok && fc.limited != isLimited {
+			if fc := c12Fx(sc2.conn); fc != nil && fc.limited != isLimited {
 				x.Fail("limited-flag-lost", "op %d: transport connection limited=%v but the swarm connection reports limited=%v", i, fc.limited, isLimited)
 				return
 			}
@@ -347,8 +404,8 @@ func c12Oracle(x *vs.Exec, sc c12Scn, env *fxEnv, runs []*c12OpRun) {
 	// connectedness: Limited exactly when there are open connections and all of them are limited
 	haveDirect, haveLimited := false, false
 	for _, c := range env.Swarm.ConnsToPeer(P.ID) {
-		fc := c.(*Conn).conn.(*fxConn)
-		if fc.isClosed() {
+		fc := c12Fx(c.(*Conn).conn)
+		if fc == nil || fc.isClosed() {
 			continue
 		}
 		if fc.limited {
@@ -392,6 +449,9 @@ func c12Scenarios(thorough bool) []c12Scn {
 		{Name: "waiter with limited conn, direct appears and closes", HaveLimited: true, Ops: []c12Op{plain}, DirectAppears: true, DirectCloses: true},
 		{Name: "limited + direct conn, the direct one dies underneath the swarm; allow-limited stream", HaveLimited: true, HaveDirect: true, DirectDies: true, Ops: []c12Op{{Kind: "stream", AllowLimited: true}}},
 		{Name: "waiter with limited conn, a second limited conn appears, then a direct one", HaveLimited: true, Ops: []c12Op{plain}, Limited2: true, DirectAppears: true},
+		// "closing" as part of the history: the connection table still holds an old direct connection that is already dead
+		{Name: "waiter with limited conn and an old direct conn that is closed but not yet removed, a new direct conn appears", HaveLimited: true, StaleDirect: true, Ops: []c12Op{plain}, DirectAppears: true},
+		{Name: "allow-limited and plain stream with limited conn and an old direct conn that is closed but not yet removed, a new direct conn appears", HaveLimited: true, StaleDirect: true, Ops: []c12Op{{Kind: "stream", AllowLimited: true}, plain}, DirectAppears: true},
 		{Name: "stream opened on the limited connection object with and without permission", HaveLimited: true, Ops: []c12Op{{Kind: "conn-stream"}, {Kind: "conn-stream", AllowLimited: true}}},
 		{Name: "waiter with limited conn, cancelled", HaveLimited: true, Ops: []c12Op{{Kind: "stream", Cancel: true}}},
 		{Name: "waiter with limited conn, nothing happens (timeout)", HaveLimited: true, Ops: []c12Op{plain}},
@@ -413,6 +473,9 @@ func c12Scenarios(thorough bool) []c12Scn {
 			c12Scn{Name: "two waiters, direct appears, one cancelled", HaveLimited: true, Ops: []c12Op{plain, {Kind: "stream", Cancel: true}}, DirectAppears: true},
 			c12Scn{Name: "waiter with limited + direct conn, direct closing", HaveLimited: true, HaveDirect: true, Ops: []c12Op{plain}, DirectCloses: true},
 			c12Scn{Name: "waiter with limited conn, limited closes", HaveLimited: true, Ops: []c12Op{plain}, LimitedCloses: true},
+			c12Scn{Name: "two waiters with limited conn and an old direct conn that is closed but not yet removed, direct appears, one cancelled", HaveLimited: true, StaleDirect: true, Ops: []c12Op{plain, {Kind: "stream", Cancel: true}}, DirectAppears: true},
+			c12Scn{Name: "waiter with limited conn and an old direct conn that is closed but not yet removed, a new direct conn appears and closes", HaveLimited: true, StaleDirect: true, Ops: []c12Op{plain}, DirectAppears: true, DirectCloses: true},
+			c12Scn{Name: "waiter with limited conn and an old direct conn that is closed but not yet removed, a second limited conn appears, then a direct one", HaveLimited: true, StaleDirect: true, Ops: []c12Op{plain}, Limited2: true, DirectAppears: true},
 			c12Scn{Name: "force-direct and plain dial, relay+tcp", Addrs: []string{relay, c12TCP1}, Complete: []string{relay, c12TCP1}, Ops: []c12Op{{Kind: "dial", ForceDirect: true}, {Kind: "dial"}}},
 			c12Scn{Name: "plain dial then force-direct dial join one worker, dnsaddr name resolves to relay + tcp: relay succeeds, the shared direct dial fails", Addrs: []string{c12DNSBoth}, Complete: []string{relayR}, Fail: []string{c12TCPResolved}, Ops: []c12Op{{Kind: "dial"}, fdDial}, Ticks: []time.Duration{501 * time.Millisecond}},
 			c12Scn{Name: "force-direct stream and plain stream without any connection, nested dnsaddr name (relay) and dns4 name (tcp)", Addrs: []string{c12DNSNested, c12DNS4Direct}, Complete: []string{relayR, c12TCPResolved}, Ops: []c12Op{{Kind: "stream", ForceDirect: true}, plain}},
